@@ -27,7 +27,10 @@
  */
 #include "stdoutoutput.h"
 
+#include "snoopy.h"
+
 #include <stdio.h>
+#include <unistd.h>
 
 
 
@@ -46,5 +49,5 @@
  */
 int snoopy_output_stdoutoutput (char const * const logMessage, __attribute__((unused)) char const * const arg)
 {
-    return fprintf(stdout, "%s\n", logMessage);
+    return dprintf(STDOUT_FILENO, "%s\n", logMessage);   // Not via the stdio buffer of stdout: it would be lost by the exec that follows
 }
